@@ -54,6 +54,18 @@ impl io::Write for Rec {
         }
         Ok(b.len())
     }
+    // The default `write_all` can return `Err(WriteZero)`; the symbolic executor cannot rule that
+    // out for a text of symbolic length, and every such phantom error is later dropped through
+    // the `dyn Error` fan-out (DESIGN.md 9.1).  This sink takes everything and says so.
+    fn write_all(&mut self, b: &[u8]) -> io::Result<()> {
+        for &x in b {
+            if self.len < CAP {
+                self.buf[self.len] = x;
+            }
+            self.len += 1;
+        }
+        Ok(())
+    }
     fn flush(&mut self) -> io::Result<()> {
         Ok(())
     }
